@@ -26,7 +26,8 @@ JoinKeys(keys, i) ==
 StrItem(lhs, s) == [t |-> "F", lhs |-> lhs, op |-> "=", vk |-> "str", num |-> LimbsZero, str |-> s, name |-> "", rhs |-> "", neg |-> FALSE, big |-> FALSE]
 PermItem(letters) == [t |-> "F", lhs |-> "perm", op |-> "=", vk |-> "perm", num |-> LimbsZero, str |-> letters, name |-> "", rhs |-> "", neg |-> FALSE, big |-> FALSE]
 
-KeyItems(keys) == IF Len(keys) = 0 THEN << >> ELSE << StrItem("key", JoinKeys(keys, 1)) >>
+\* auditctl adds the key field only when the joined key is not empty (`if (key[0])`): -k "" alone names no key
+KeyItems(keys) == IF Len(keys) = 0 \/ Len(JoinKeys(keys, 1)) = 0 THEN << >> ELSE << StrItem("key", JoinKeys(keys, 1)) >>
 
 AllItems(r) ==
     IF r.kind = "watch"
